@@ -417,7 +417,7 @@ func Equal(a, b Value) *term.T {
 	case *term.T:
 		y, ok := b.(*term.T)
 		if !ok {
-			panic(fmt.Sprintf("Equal: scalar vs %T", b))
+			panic(pathEnd{"unsupported", fmt.Sprintf("Equal: scalar vs %T", b)})
 		}
 		return term.MkEq(x, y)
 	case OpaqueFloat:
